@@ -72,6 +72,7 @@ cdef class QueryScheduler:
     cdef object _next_run
     cdef double _clock_resolution_millis
     cdef object _question_type
+    cdef double _earliest_next_run
 
     cdef void _schedule_ptr_refresh(self, DNSPointer pointer, double expire_time_millis, double refresh_time_millis)
 
